@@ -84,6 +84,68 @@ theorem setAll_spec (hd : Handler) : ∀ (ids : List Bytes) (hs : List (Bytes ×
       · rintro ((h | h) | h); exact Or.inl h; exact Or.inr (Or.inl h); exact Or.inr (Or.inr h)
       · rintro (h | h | h); exact Or.inl (Or.inl h); exact Or.inl (Or.inr h); exact Or.inr h
 
+theorem setH_keys_nodup (id : Bytes) (hd : Handler) : ∀ (hs : List (Bytes × Handler)),
+    (hs.map (·.1)).Nodup → ((setH id hd hs).map (·.1)).Nodup
+  | [], _ => by simp [setH]
+  | (k, v) :: rest, h => by
+    unfold setH
+    by_cases hk : k = id
+    · simpa [hk] using h
+    · simp only [hk, ↓reduceIte, List.map_cons, List.nodup_cons] at h ⊢
+      refine ⟨?_, setH_keys_nodup id hd rest h.2⟩
+      intro hm
+      rcases (keys_setH id hd k rest).mp hm with h1 | h1
+      · exact h.1 h1
+      · exact hk h1
+
+theorem setAll_keys_nodup (hd : Handler) : ∀ (ids : List Bytes) (hs : List (Bytes × Handler)),
+    (hs.map (·.1)).Nodup → ((ids.foldl (fun hs id => setH id hd hs) hs).map (·.1)).Nodup
+  | [], _, h => h
+  | id :: ids, hs, h => by
+    simp only [List.foldl_cons]
+    exact setAll_keys_nodup hd ids _ (setH_keys_nodup id hd hs h)
+
+/-- the expiry callback keeps every entry that is not the given stand-in -/
+theorem removeOwn_mem {ids : List Bytes} {hd : Handler} {hs : List (Bytes × Handler)} {kv : Bytes × Handler} :
+    kv ∈ removeOwn ids hd hs ↔ kv ∈ hs ∧ ¬ (kv.1 ∈ ids ∧ kv.2 = hd) := by
+  unfold removeOwn
+  simp only [List.mem_filter, List.contains_iff_mem, decide_not, Bool.not_eq_eq_eq_not, Bool.not_true,
+    decide_eq_false_iff_not]
+
+theorem foldl_removeOwn_mem : ∀ (ts : List (Int × List Bytes × Handler)) (hs : List (Bytes × Handler)) (kv : Bytes × Handler),
+    kv ∈ ts.foldl (fun hs t => removeOwn t.2.1 t.2.2 hs) hs ↔ kv ∈ hs ∧ ∀ t ∈ ts, ¬ (kv.1 ∈ t.2.1 ∧ kv.2 = t.2.2)
+  | [], hs, kv => by simp
+  | t :: ts, hs, kv => by
+    simp only [List.foldl_cons]
+    rw [foldl_removeOwn_mem ts, removeOwn_mem]
+    simp only [List.mem_cons, forall_eq_or_imp]
+    constructor
+    · rintro ⟨⟨a, b⟩, c⟩; exact ⟨a, b, c⟩
+    · rintro ⟨a, b, c⟩; exact ⟨⟨a, b⟩, c⟩
+
+/-- An entry survives every expiry unless some due timer was armed for its ID with exactly its handler:
+    expiry removes only the closed connections' own stand-in entries. -/
+theorem advance_mem {r : Routing} {d : Int} {kv : Bytes × Handler} :
+    kv ∈ (r.advance d).handlers ↔
+      kv ∈ r.handlers ∧ ∀ t ∈ r.timers, t.1 ≤ r.now + d → ¬ (kv.1 ∈ t.2.1 ∧ kv.2 = t.2.2) := by
+  unfold Routing.advance
+  simp only
+  rw [foldl_removeOwn_mem]
+  simp only [List.mem_filter, decide_eq_true_eq, and_imp]
+
+theorem advance_keys_nodup {r : Routing} (d : Int) (h : (r.handlers.map (·.1)).Nodup) :
+    ((r.advance d).handlers.map (·.1)).Nodup := by
+  unfold Routing.advance
+  simp only
+  generalize (r.timers.filter fun t => decide (t.1 ≤ r.now + d)) = ts
+  induction ts generalizing r with
+  | nil => exact h
+  | cons t ts ih =>
+    simp only [List.foldl_cons]
+    have : ((removeOwn t.2.1 t.2.2 r.handlers).map (·.1)).Nodup :=
+      List.Nodup.sublist (List.Sublist.map _ List.filter_sublist) h
+    exact ih (r := { r with handlers := removeOwn t.2.1 t.2.2 r.handlers }) this
+
 /-- the handler that replaces the connection -/
 def closedHandler (r : Routing) (localClose : Bool) : Handler :=
   if localClose then .closedLocal r.counters.length else .closedRemote
@@ -94,8 +156,8 @@ theorem replace_clean {mk : Nat → Bytes} {I : List Bytes} {g : Generator} {r :
     (localClose : Bool) (expiry : Int) :
     let r1 := (g.replaceWithClosed localClose expiry).foldl Routing.applyG r
     (∀ id ∈ g.allIDs, lookupH id r1.handlers = some (closedHandler r localClose)) ∧
-    (∀ id, lookupH id r1.handlers ≠ some Handler.conn) ∧
-    (∀ id, (r1.deliver id).2 ≠ Delivery.conn) ∧
+    (∀ id c, lookupH id r1.handlers ≠ some (Handler.conn c)) ∧
+    (∀ id c, (r1.deliver id).2 ≠ Delivery.conn c) ∧
     (∀ d, expiry ≤ d → (r1.advance d).handlers = [] ∧ (r1.advance d).timers = []) := by
   intro r1
   have hr1 : r1 = r.replaceWithClosed g.allIDs localClose expiry := by
@@ -111,43 +173,115 @@ theorem replace_clean {mk : Nat → Bytes} {I : List Bytes} {g : Generator} {r :
     · simp only [hin, ↓reduceIte]
       apply lookupH_none.mpr
       intro hk; exact hin ((h.exact id).mp hk)
-  have hne : closedHandler r localClose ≠ Handler.conn := by
-    unfold closedHandler; cases localClose <;> simp
-  have hnoconn : ∀ id, lookupH id r1.handlers ≠ some Handler.conn := by
-    intro id; rw [hlook id]
+  have hne : ∀ c, closedHandler r localClose ≠ Handler.conn c := by
+    intro c; unfold closedHandler; cases localClose <;> simp
+  have hnoconn : ∀ id c, lookupH id r1.handlers ≠ some (Handler.conn c) := by
+    intro id c; rw [hlook id]
     by_cases hin : id ∈ g.allIDs
-    · simp only [hin, ↓reduceIte, ne_eq, Option.some.injEq]; exact hne
+    · simp only [hin, ↓reduceIte, ne_eq, Option.some.injEq]; exact hne c
     · simp [hin]
   refine ⟨?_, hnoconn, ?_, ?_⟩
   · intro id hid; rw [hlook id]; simp [hid]
-  · intro id
+  · intro id c
     unfold Routing.deliver
-    have := hnoconn id
     split
     · simp
-    · rename_i hc; exact absurd hc this
+    · rename_i c' hc; exact absurd hc (hnoconn id c')
     · simp
     · simp
   · intro d hd
-    have ht : r1.timers = [(r.now + expiry, g.allIDs)] := by
-      rw [hr1]; simp [Routing.replaceWithClosed, h.map.noTimers]
+    have ht : r1.timers = [(r.now + expiry, g.allIDs, closedHandler r localClose)] := by
+      rw [hr1]; simp [Routing.replaceWithClosed, h.map.noTimers, closedHandler]
     have hnow : r1.now = r.now := by rw [hr1]; simp [Routing.replaceWithClosed]
-    unfold Routing.advance
-    have hdue : (r.now + expiry ≤ r1.now + d) := by rw [hnow]; omega
-    simp only [ht, List.filter_cons, hdue, decide_true, ↓reduceIte, List.filter_nil, List.foldl_cons, List.foldl_nil,
-      not_true_eq_false, decide_false, Bool.false_eq_true, and_true]
-    apply handlers_nil_of_keys
-    intro x hx
-    unfold removeAllIDs at hx
-    obtain ⟨kv, hkv, rfl⟩ := List.mem_map.mp hx
-    have hkv' := List.mem_filter.mp hkv
-    have hkey : kv.1 ∈ r1.handlers.map (·.1) := List.mem_map.mpr ⟨kv, hkv'.1, rfl⟩
-    rw [hh, (hspec kv.1).2] at hkey
-    have hin : kv.1 ∈ g.allIDs := by
-      rcases hkey with hk | hk
-      · exact (h.exact kv.1).mp hk
-      · exact hk
-    have hnot : ¬ kv.1 ∈ g.allIDs := by simpa using hkv'.2
-    exact hnot hin
+    refine ⟨?_, ?_⟩
+    · cases hh2 : (r1.advance d).handlers with
+      | nil => rfl
+      | cons kv rest =>
+        exfalso
+        have hm : kv ∈ (r1.advance d).handlers := by rw [hh2]; simp
+        obtain ⟨hkv, hno⟩ := advance_mem.mp hm
+        have hkey : kv.1 ∈ r1.handlers.map (·.1) := List.mem_map.mpr ⟨kv, hkv, rfl⟩
+        have hnd : (r1.handlers.map (·.1)).Nodup := by rw [hh]; exact setAll_keys_nodup _ _ _ h.map.nodup
+        rw [hh, (hspec kv.1).2] at hkey
+        have hin : kv.1 ∈ g.allIDs := by
+          rcases hkey with hk | hk
+          · exact (h.exact kv.1).mp hk
+          · exact hk
+        have hl := lookupH_of_mem hnd (show (kv.1, kv.2) ∈ r1.handlers from hkv)
+        rw [hlook kv.1] at hl
+        simp only [hin, ↓reduceIte, Option.some.injEq] at hl
+        apply hno (r.now + expiry, g.allIDs, closedHandler r localClose) (by rw [ht]; simp) (by rw [hnow]; simp only; omega)
+        exact ⟨hin, hl.symm⟩
+    · unfold Routing.advance
+      simp only [ht, hnow]
+      have : r.now + expiry ≤ r.now + d := by omega
+      simp [this]
+
+/-- Another connection `c` registers one of the closed connection's IDs before the closing period ends (with
+    zero-length connection IDs every dial on the transport uses the empty ID): the expiry removes exactly the closed
+    connection's own stand-in entries, the other connection's entry stays and keeps receiving its packets. -/
+theorem expiry_keeps_foreign {mk : Nat → Bytes} {I : List Bytes} {g : Generator} {r : Routing} (h : RInv mk I g r)
+    (localClose : Bool) (expiry : Int) (id : Bytes) (c : Nat) (d : Int) (hd : expiry ≤ d) :
+    let r1 := (g.replaceWithClosed localClose expiry).foldl Routing.applyG r
+    let r2 := (r1.install id c).advance d
+    (∀ kv, kv ∈ r2.handlers ↔ kv = (id, Handler.conn c)) ∧ (r2.deliver id).2 = Delivery.conn c := by
+  intro r1 r2
+  have hr1 : r1 = r.replaceWithClosed g.allIDs localClose expiry := by
+    simp [r1, Generator.replaceWithClosed, Routing.applyG]
+  have hspec := setAll_spec (closedHandler r localClose) g.allIDs r.handlers
+  have hh : r1.handlers = g.allIDs.foldl (fun hs id => setH id (closedHandler r localClose) hs) r.handlers := by
+    rw [hr1]; simp [Routing.replaceWithClosed, closedHandler]
+  have ht : (r1.install id c).timers = [(r.now + expiry, g.allIDs, closedHandler r localClose)] := by
+    rw [hr1]; simp [Routing.install, Routing.replaceWithClosed, h.map.noTimers, closedHandler]
+  have hnow : (r1.install id c).now = r.now := by rw [hr1]; simp [Routing.install, Routing.replaceWithClosed]
+  have hnd1 : (r1.handlers.map (·.1)).Nodup := by rw [hh]; exact setAll_keys_nodup _ _ _ h.map.nodup
+  have hnd2 : ((r1.install id c).handlers.map (·.1)).Nodup := setH_keys_nodup id _ _ hnd1
+  have hne : closedHandler r localClose ≠ Handler.conn c := by
+    unfold closedHandler; cases localClose <;> simp
+  -- lookups in the map after the second connection registered
+  have hlook2 : ∀ x, lookupH x (r1.install id c).handlers =
+      if x = id then some (Handler.conn c) else if x ∈ g.allIDs then some (closedHandler r localClose) else none := by
+    intro x
+    simp only [Routing.install]
+    rw [lookupH_setH, hh, (hspec x).1]
+    by_cases hx : x = id
+    · simp [hx]
+    · simp only [hx, ↓reduceIte]
+      by_cases hin : x ∈ g.allIDs
+      · simp [hin]
+      · simp only [hin, ↓reduceIte]
+        apply lookupH_none.mpr
+        intro hk; exact hin ((h.exact x).mp hk)
+  have hmem : ∀ kv, kv ∈ r2.handlers ↔ kv = (id, Handler.conn c) := by
+    intro kv
+    rw [advance_mem]
+    constructor
+    · rintro ⟨hkv, hno⟩
+      have hl := lookupH_of_mem hnd2 (show (kv.1, kv.2) ∈ (r1.install id c).handlers from hkv)
+      rw [hlook2 kv.1] at hl
+      by_cases hx : kv.1 = id
+      · simp only [hx, ↓reduceIte, Option.some.injEq] at hl
+        exact Prod.ext hx hl.symm
+      · simp only [hx, ↓reduceIte] at hl
+        by_cases hin : kv.1 ∈ g.allIDs
+        · simp only [hin, ↓reduceIte, Option.some.injEq] at hl
+          exfalso
+          apply hno (r.now + expiry, g.allIDs, closedHandler r localClose) (by rw [ht]; simp) (by rw [hnow]; simp only; omega)
+          exact ⟨hin, hl.symm⟩
+        · simp [hin] at hl
+    · rintro rfl
+      refine ⟨?_, ?_⟩
+      · apply lookupH_some_mem
+        rw [hlook2]; simp
+      · intro t ht' _ hc
+        rw [ht] at ht'
+        simp only [List.mem_singleton] at ht'
+        subst ht'
+        exact hne hc.2.symm
+  refine ⟨hmem, ?_⟩
+  have hl : lookupH id r2.handlers = some (Handler.conn c) :=
+    lookupH_of_mem (advance_keys_nodup d hnd2) ((hmem _).mpr rfl)
+  unfold Routing.deliver
+  rw [hl]
 
 end Uquic.Proofs.ConnID
